@@ -1,4 +1,5 @@
 import Pm.IsolationProof
+import Pm.TwoRunEx
 /-! # C11 — clients are isolated from one another
 
 *"Replies, status results, telemetry and diagnostics produced for one client's request are delivered to that client only,
@@ -27,8 +28,8 @@ Vocabulary:
 * `IdsFresh w`, `ArgScope w`, `Iso w` — the id discipline, the arglist discipline, both.
 
 Ranking (DESIGN §6): routing (done, both halves) ▸ departure (done) ▸ one command (done) ▸ result scope (done, with the
-hypothesis `k.al ≠ 0`, see the finding in `Props/C05`) ▸ ids (done for `Nat` ids; the C counter wraps) ▸ back-pressure (frame
-only: `_partial`). -/
+hypothesis `k.al ≠ 0`, see the finding in `Props/C05`) ▸ ids (done for `Nat` ids; the C counter wraps) ▸ back-pressure (§6 the
+single-run frame; §7 the two-run statement `C11_backpressure`; §8 a client that vanishes). -/
 namespace Pm.Props.C11
 open Pm Pm.Client Pm.Daemon Pm.Daemon.Isolation
 open Pm.Dev2 (CS Oracle Time Dev Action ActErr outCid processAction)
@@ -374,19 +375,16 @@ example : (daemonPass { Two.w3d with pendingX := Two.xs4 } Two.p4).2.all (fun l 
 
 /-! ## 6. Back-pressure -/
 
-/- FULL STATEMENT AIMED AT (not proved): for a world with a client `s` that never reads (its descriptor accepts nothing)
-   and the same world without `s`, every other client is sent the same bytes in the same passes.
+/- THE TWO-RUN STATEMENTS are in §7 (`C11_backpressure`: the client stops reading) and §8 (`C11_vanish`: it vanishes / is absent).
 
-   PROVED (`_partial`): the single-run *frame* of the client phase, which is what such a two-run statement would rest on —
+   HERE (`_partial` with respect to them): the single-run *frame* of the client phase —
    a turn of the loop of `cli_post_poll` for one client (stuck or not) changes no other client's record, writes to no other
    client's descriptor and consumes no other descriptor's write capacity (1, 2); a record is read and written in its own
    turn only (2'); the turn of a client that is stuck *and silent* is the identity, so the loop runs as if it were absent
    from the list being served (2''); a client whose descriptor is not reported
    writable only accumulates output in its own buffer (3); a non-blocking descriptor that is reported writable but takes
    nothing (the model's `cap = 0`: the `write` fails with EAGAIN, `cbuf_read_to_fd` returns -1) makes `_handle_write` mark
-   the client as gone — as coded, the client is then destroyed once its command is over (4).  MISSING: the two-run part (that the turn of client `x` *reads* nothing of
-   the other clients' records; it does read the devices, the store and `exited`, which another client's requests
-   legitimately change).  The blocking `write` after `quit` (known finding F23: the descriptor is made blocking and the
+   the client as gone — as coded, the client is then destroyed once its command is over (4).  The blocking `write` after `quit` (known finding F23: the descriptor is made blocking and the
    whole daemon sleeps in `write` until the peer reads) cannot be expressed in a model without time inside a pass: it
    appears only as the `blocks` flag of the logged `Sys.write` (5). -/
 theorem C11_backpressure_partial (envs : List FdEnv) :
@@ -457,6 +455,219 @@ example : (cliRec Two.w3 2).map (fun c =>
     some (0, some (false, bstr "208 Command in progress\r\n")) := by decide +kernel
 example : (cliRec Two.w3 2).map (fun c => (capOf { Two.w3 with caps := [(1001, 0)] } c.fd, c.quit, c.blocking, c.toBuf.isEmpty)) =
     some (0, false, false, false) := by
+  decide +kernel
+
+/-! ## 7. Back-pressure as a statement about two runs
+
+Helper modules: `Pm/TwoRun.lean` (every stage of one client's share of `cli_post_poll`, relationally: `clientPass` does not read
+the client table, reads the write capacity of its own descriptor only, and two records that differ in the output buffer go
+through every stage to records that differ in the output buffer), `Pm/TwoRunC11.lean` (the relation `ARel` between the two
+worlds, one pass, any number of passes), `Pm/TwoRunEx.lean` (example runs).
+
+Vocabulary:
+
+* `stuckIn fs p` — the pass input `p` with the writable bit of descriptor `fs` cleared (`rev % 2`) and no capacity: the peer on
+  `fs` has stopped reading; everything else — clock, `accept`, `connect()` answers, the events of every other descriptor, and
+  what *arrives* on `fs` — is as in `p`;
+* `ReaderRun fs w ps` — along the first run: `ReaderOK` (for `fs` only the readable/writable bits are reported — no hang-up,
+  error or invalid-descriptor bit — and when it is reported writable it takes at least one byte: in the first run the client
+  *behaves*), and no device's descriptor has the number `fs`;
+* `passSteps w p` — what every device does in the pass `p` from world `w`: per device its new state, its system calls (the
+  transcript of the pass), the oracle remainder, its callbacks, its registered time-out (`none`: not stepped, `assert`);
+  `callbacksFor s steps` — the callbacks among them that carry client `s`'s id;
+* `Faithful s fs w ps` — where the model is faithful to the code (see below). -/
+open Pm.Daemon.TwoRun in
+/-- **Back-pressure, two runs** (the last clause of the property).  Start two runs in the same reachable world `w` (`Iso w`:
+    the id and arglist disciplines, which hold at start-up and are kept by every pass); client `s` is the one client on
+    descriptor `fs`.  First run: pass inputs `ps`, in which `s` behaves (`ReaderRun`).  Second run: the same inputs, except
+    that `fs` is never again reported writable (`stuckIn fs`): `s` has stopped reading — while it may go on *sending* whatever
+    it sends in the first run, requests included.  Then after every number `n` of passes:
+
+    1. every other client `g ≠ s` has the same record in both runs (output buffer, command in progress, flags, input buffer);
+    2. the bytes written to every other descriptor in the last pass are the same;
+    3. every device is in the same state (queue, buffers, connection), the arglist store is the same, the same clients are
+       connected, neither or both processes have left;
+    4. in the next pass every device does the same in both runs (`passSteps`: state, system calls, callbacks, time-out) — so
+       every device sees the same transcript; in particular
+    5. the callbacks carrying `s`'s own id are the same: the actions queued for `s` run and complete exactly as if `s` were
+       reading — nothing is cancelled.
+
+    What differs is `s`'s own output buffer, which only grows in the second run (`C11_backpressure_partial`, item 3).
+
+    EXPLICIT EXCLUSIONS (`Faithful`; the proof does not use them — they delimit where the model speaks for the code).
+    (a) F23: once `s` has quit (command `quit`, end of file) `_handle_write` clears `O_NONBLOCK` and writes the whole buffer;
+    with a peer that does not read the real daemon sleeps in `write` and *every* session stalls.  The model has no time inside
+    a pass: the call is logged with the flag `blocks` and the run goes on.  `Faithful.noBlock` excludes a logged blocking write
+    on `fs` in the second run.  (b) The model's output buffer is unbounded; the real `cbuf` is capped at `MAX_CLIENT_BUF` = 1 MiB
+    and then drops the client's own oldest output (`_client_printf: cbuf_write dropped`).  `Faithful.below` keeps `s`'s buffer
+    below that.  Neither touches another session in the model; (a) does in the code (known finding F23). -/
+theorem C11_backpressure (s fs : Nat) (w : W) (ps : List PassIn) (hi : Iso w)
+    (hs : ∀ c ∈ w.clients, c.fd = fs → c.id = s) (hf : fs < 1000 + w.nacc) (hrun : ReaderRun fs w ps)
+    (_hmodel : Faithful s fs w (ps.map (stuckIn fs))) (n : Nat) :
+    (∀ g, g ≠ s → cliRec (runPasses w ((ps.take n).map (stuckIn fs))) g = cliRec (runPasses w (ps.take n)) g) ∧
+    (∀ fd, fd ≠ fs → ClientPf.written (runPasses w ((ps.take n).map (stuckIn fs))).sys fd = ClientPf.written (runPasses w (ps.take n)).sys fd) ∧
+    ((runPasses w ((ps.take n).map (stuckIn fs))).devs = (runPasses w (ps.take n)).devs ∧
+     (runPasses w ((ps.take n).map (stuckIn fs))).store = (runPasses w (ps.take n)).store ∧
+     ids (runPasses w ((ps.take n).map (stuckIn fs))) = ids (runPasses w (ps.take n)) ∧
+     (runPasses w ((ps.take n).map (stuckIn fs))).exited = (runPasses w (ps.take n)).exited) ∧
+    (∀ p, ps[n]? = some p →
+      passSteps (runPasses w ((ps.take n).map (stuckIn fs))) (stuckIn fs p) = passSteps (runPasses w (ps.take n)) p ∧
+      callbacksFor s (passSteps (runPasses w ((ps.take n).map (stuckIn fs))) (stuckIn fs p)) =
+        callbacksFor s (passSteps (runPasses w (ps.take n)) p)) := by
+  have e1 : ((ps.map fun p => (p, stuckIn fs p)).take n).map (·.1) = ps.take n := by
+    rw [← List.map_take, List.map_map]
+    have : ((fun x : PassIn × PassIn => x.1) ∘ fun p => (p, stuckIn fs p)) = id := rfl
+    rw [this, List.map_id]
+  have e2 : ((ps.map fun p => (p, stuckIn fs p)).take n).map (·.2) = (ps.take n).map (stuckIn fs) := by
+    rw [← List.map_take, List.map_map]; rfl
+  obtain ⟨hr, hst⟩ := backpressure s fs w (ps.map fun p => (p, stuckIn fs p)) hi hs hf (stuckRun_of fs ps w hrun) n
+  rw [e1, e2] at hr hst
+  obtain ⟨o1, o2, o3, o4, _, o6, o7⟩ := hr.others
+  refine ⟨o1, o2, ⟨o3, o4, o7, o6⟩, fun p hp => ?_⟩
+  have := hst (p, stuckIn fs p) (by rw [List.getElem?_map, hp]; rfl)
+  exact ⟨this, by rw [this]⟩
+
+open Pm.Daemon.TwoRun in
+/-- The same for two arbitrary lists of pass inputs given pass by pass as pairs `(p, p')`: `StuckRun fs w pp` says of every pair
+    — the same clock, `accept` verdict and `connect()` answers; the same events on every descriptor but `fs`; on `fs`: in
+    `p` only readable/writable bits and a positive capacity when writable, in `p'` the readable bit and what is read as in `p`
+    and never writable (`StuckEv`; the capacity in `p'` is arbitrary) — and that no device sits on the number `fs`.
+    `ARel s fs w₁ w₂` is the relation the runs keep: everything but the client table, the log and the capacities is equal; the
+    tables are equal entry by entry except for the output buffer and the blocking flag of the entry on `fs`; the logs of
+    the last pass are equal on every other descriptor. -/
+theorem C11_backpressure_pairs (s fs : Nat) (w : W) (pp : List (PassIn × PassIn)) (hi : Iso w)
+    (hs : ∀ c ∈ w.clients, c.fd = fs → c.id = s) (hf : fs < 1000 + w.nacc) (hrun : StuckRun fs w pp) (n : Nat) :
+    ARel s fs (runPasses w ((pp.take n).map (·.1))) (runPasses w ((pp.take n).map (·.2))) ∧
+    ∀ x, pp[n]? = some x →
+      passSteps (runPasses w ((pp.take n).map (·.2))) x.2 = passSteps (runPasses w ((pp.take n).map (·.1))) x.1 :=
+  backpressure s fs w pp hi hs hf hrun n
+
+open Pm.Daemon.TwoRun in
+/-- what `ARel` gives, spelled out -/
+theorem C11_ARel_spelled (s fs : Nat) (w w' : W) (h : ARel s fs w w') :
+    (∀ g, g ≠ s → cliRec w' g = cliRec w g) ∧ (∀ fd, fd ≠ fs → ClientPf.written w'.sys fd = ClientPf.written w.sys fd) ∧
+    w'.devs = w.devs ∧ w'.store = w.store ∧ w'.alNext = w.alNext ∧ w'.exited = w.exited ∧ ids w' = ids w :=
+  h.others
+
+open Pm.Daemon.TwoRun in
+/-- what the hypotheses about one pair of pass inputs say, spelled out -/
+theorem C11_StuckPass_spelled (fs : Nat) (w : W) (p p' : PassIn) (h : StuckPass fs w p p') :
+    p'.now = p.now ∧ p'.acc = p.acc ∧ p'.con = p.con ∧ p'.soe = p.soe ∧
+    (∀ fd, fd ≠ fs → p'.envs.find? (·.fd == fd) = p.envs.find? (·.fd == fd)) ∧
+    (match p.envs.find? (·.fd == fs), p'.envs.find? (·.fd == fs) with
+      | none, none => True
+      | some x, some x' => x.rev < 4 ∧ x'.rev = x.rev % 2 ∧ x'.rk = x.rk ∧ x'.data = x.data ∧ (2 ≤ x.rev → 0 < x.cap)
+      | _, _ => False) ∧
+    (∀ nd ∈ w.devs, nd.2.fd ≠ some fs) :=
+  ⟨h.now, h.acc, h.con, h.soe, h.others, h.stuck, h.devfd⟩
+
+open Pm.Daemon.TwoRun in
+/-- **"… does not delay …": the model-level timing fact.**  `replyPass w ps g` is the index of the first pass in which client
+    `g`'s command in progress is completed (the final reply is queued, `cmd` is cleared).  Under the hypotheses of
+    `C11_backpressure` it is the same in both runs for every client `g ≠ s`.  (Time is an *input* of the model — `PassIn.now`
+    is the same in both runs by construction —; equality of real completion times is outside it.) -/
+theorem C11_backpressure_timing (s fs : Nat) (w : W) (ps : List PassIn) (hi : Iso w)
+    (hs : ∀ c ∈ w.clients, c.fd = fs → c.id = s) (hf : fs < 1000 + w.nacc) (hrun : ReaderRun fs w ps)
+    (hmodel : Faithful s fs w (ps.map (stuckIn fs))) (g : Nat) (hg : g ≠ s) :
+    replyPass w (ps.map (stuckIn fs)) g = replyPass w ps g := by
+  apply replyPass_congr w w ps (ps.map (stuckIn fs)) g (by simp)
+  intro n
+  rw [← List.map_take]
+  exact (C11_backpressure s fs w ps hi hs hf hrun hmodel n).1 g hg
+
+/- non-vacuity (`Pm/TwoRunEx.lean`).  World `Two.w3x`: clients 1 (descriptor 1000) and 2 (descriptor 1001) both have `status a1`
+   in flight and the banner in their buffers.  Pass A: the device answers client 1's action, both descriptors are writable.
+   Pass B: a third client connects, client 1 asks again, client 2 sends `help` (answered 208), the device takes the bytes of
+   client 2's action.  In the second run descriptor 1001 is never writable.  All hypotheses hold; after both passes client 2's
+   buffer holds 25 bytes in the first run and 42 in the second (banner never taken); clients 1 and 3, the queue of the device
+   and the bytes written to descriptor 1000 are the same; client 1's command completes in pass 0 in both runs. -/
+example : Iso Two.w3x ∧ (∀ c ∈ Two.w3x.clients, c.fd = 1001 → c.id = 2) ∧ 1001 < 1000 + Two.w3x.nacc ∧
+    Pm.Daemon.TwoRun.ReaderRun 1001 Two.w3x Pm.Daemon.TwoRun.Ex.ps ∧
+    Pm.Daemon.TwoRun.Faithful 2 1001 Two.w3x (Pm.Daemon.TwoRun.Ex.ps.map (Pm.Daemon.TwoRun.stuckIn 1001)) :=
+  ⟨Pm.Daemon.TwoRun.Ex.iso3x, Pm.Daemon.TwoRun.Ex.onlyS, Pm.Daemon.TwoRun.Ex.fresh, Pm.Daemon.TwoRun.Ex.readerRun,
+   Pm.Daemon.TwoRun.Ex.faithful⟩
+example :
+    (runPasses Two.w3x Pm.Daemon.TwoRun.Ex.ps).clients.map (fun c => (c.id, c.fd, c.toBuf.length, c.cmd.isSome)) =
+      [(1, 1000, 0, true), (2, 1001, 25, true), (3, 1002, 17, false)] ∧
+    (runPasses Two.w3x Pm.Daemon.TwoRun.Ex.ps').clients.map (fun c => (c.id, c.fd, c.toBuf.length, c.cmd.isSome)) =
+      [(1, 1000, 0, true), (2, 1001, 42, true), (3, 1002, 17, false)] ∧
+    (runPasses Two.w3x Pm.Daemon.TwoRun.Ex.ps).devs.map (fun nd => nd.2.acts.map fun a => (a.clientId, a.arglist)) = [[(2, 2), (1, 3)]] ∧
+    Pm.Daemon.TwoRun.replyPass Two.w3x Pm.Daemon.TwoRun.Ex.ps 1 = some 0 ∧
+    Pm.Daemon.TwoRun.replyPass Two.w3x Pm.Daemon.TwoRun.Ex.ps' 1 = some 0 := by decide +kernel
+
+/-! ## 8. A client that vanishes — or whose descriptor does not matter because it sends nothing
+
+Helper module `Pm/TwoRunGone.lean`.  Vocabulary: `Inert envs c` — nothing arrives from client `c` in this pass: its descriptor is
+not reported readable (nor hung up) and no complete request line waits in its input buffer; it may be reported writable,
+with any capacity, or `POLLERR`/`POLLNVAL` (then it is destroyed at once).  `GoneRun fs w w' pp` — for every pair of pass inputs
+along the two runs (`GonePass`): the same clock, `accept` verdict and `connect()` answers; the same events on every descriptor but
+`fs`; no device on the number `fs`; the client on `fs`, in either run, if it is (still) there, is `Inert`; both worlds satisfy
+the id discipline; neither device phase hits a modelled `assert`.  `BRel fs w₁ w₂` — the relation kept: everything equal except
+the client tables, which are equal on the clients not on `fs`, and the logs, equal on every descriptor but `fs`. -/
+open Pm.Daemon.TwoRun in
+/-- **Disconnection at any moment, two runs.**  Two runs from worlds related by `BRel` — in particular from the *same* world
+    (`C11_BRel_init`), or from the two worlds a stuck phase (`C11_backpressure_pairs`) has produced (`C11_stuck_then_vanish`).
+    In the first run the client on `fs` stays connected and sends nothing more; in the second its descriptor reports an error
+    in some pass — it *vanishes*: `_destroy_client`, descriptor closed — or it never becomes writable, or anything else that
+    is not input.  Then after every number `n` of passes the relation still holds, and in the next pass every device does
+    exactly the same in both runs (`passSteps`): the actions queued for the vanished client stay queued, run, and complete
+    with the same callbacks (which `_act_finish` drops for a client that is gone, `C11_departure_late`); by `C11_BRel_spelled`
+    every other client has the same record and was written the same bytes, every device and the arglist store are the same.
+
+    The hypothesis that no modelled `assert` fires (`GonePass.alive`, `alive'`) is needed because a completion for a client
+    that is *present* goes through `assert(c->cmd != NULL)` and the sort assertion of the final reply, while one for a client
+    that is gone does not; `C06`/`C02` are where these asserts are discussed. -/
+theorem C11_vanish (fs : Nat) (w w' : W) (pp : List (PassIn × PassIn)) (hr : BRel fs w w') (hs : GoneRun fs w w' pp) (n : Nat) :
+    BRel fs (runPasses w ((pp.take n).map (·.1))) (runPasses w' ((pp.take n).map (·.2))) ∧
+    ∀ x, pp[n]? = some x →
+      passSteps (runPasses w' ((pp.take n).map (·.2))) x.2 = passSteps (runPasses w ((pp.take n).map (·.1))) x.1 :=
+  vanish fs w w' pp hr hs n
+
+open Pm.Daemon.TwoRun in
+/-- the two runs may start in the same world (the client on `fs`, if any, is `s`; the descriptor number `fs` has been handed out) -/
+theorem C11_BRel_init (s fs : Nat) (w : W) (h1 : ∀ c ∈ w.clients, c.fd = fs → c.id = s) (h2 : fs < 1000 + w.nacc) : BRel fs w w :=
+  (ARel.init s fs w h1 h2).toB
+
+open Pm.Daemon.TwoRun in
+/-- what `BRel` gives, spelled out (`w'` reachable) -/
+theorem C11_BRel_spelled (fs : Nat) (w w' : W) (h : BRel fs w w') (hi' : IdsFresh w') :
+    (∀ g c, cliRec w g = some c → c.fd ≠ fs → cliRec w' g = some c) ∧
+    (∀ fd, fd ≠ fs → ClientPf.written w'.sys fd = ClientPf.written w.sys fd) ∧
+    w'.devs = w.devs ∧ w'.store = w.store ∧ w'.alNext = w.alNext ∧ w'.exited = w.exited ∧
+    w'.clients.filter (fun c => c.fd != fs) = w.clients.filter (fun c => c.fd != fs) :=
+  h.others hi'
+
+open Pm.Daemon.TwoRun in
+/-- **First it stops reading, then it vanishes.**  A stuck phase `pp1` (hypotheses of `C11_backpressure_pairs`) followed by a phase
+    `pp2` in which the client sends nothing in either run and its descriptor's events are arbitrary (`GoneRun`, stated on the
+    worlds the two runs have reached after `pp1`): the relation `BRel` holds throughout the second phase. -/
+theorem C11_stuck_then_vanish (s fs : Nat) (w : W) (pp1 pp2 : List (PassIn × PassIn)) (hi : Iso w)
+    (h1 : ∀ c ∈ w.clients, c.fd = fs → c.id = s) (h2 : fs < 1000 + w.nacc) (hs1 : StuckRun fs w pp1)
+    (hs2 : GoneRun fs (runPasses w (pp1.map (·.1))) (runPasses w (pp1.map (·.2))) pp2) (n : Nat) :
+    BRel fs (runPasses w ((pp1 ++ pp2.take n).map (·.1))) (runPasses w ((pp1 ++ pp2.take n).map (·.2))) :=
+  stuck_then_gone s fs w pp1 pp2 hi h1 h2 hs1 hs2 n
+
+/- non-vacuity (`Pm/TwoRunEx.lean`).  World `Two.w3x` again; client 2 (descriptor 1001) is the one.  Pass V: the device answers client
+   1's action; in the second run descriptor 1001 reports `POLLERR`.  Pass W: the device takes the bytes of client 2's action.
+   The hypotheses hold (`goneRun`).  After both passes client 2 is connected in the first run and gone in the second; client 1
+   and the device — whose queue still holds client 2's action — are the same. -/
+example : Pm.Daemon.TwoRun.BRel 1001 Two.w3x Two.w3x ∧ Pm.Daemon.TwoRun.GoneRun 1001 Two.w3x Two.w3x Pm.Daemon.TwoRun.Ex.ppV :=
+  ⟨Pm.Daemon.TwoRun.Ex.brel0, Pm.Daemon.TwoRun.Ex.goneRun⟩
+example :
+    ids (runPasses Two.w3x (Pm.Daemon.TwoRun.Ex.ppV.map (·.1))) = [1, 2] ∧ ids (runPasses Two.w3x (Pm.Daemon.TwoRun.Ex.ppV.map (·.2))) = [1] ∧
+    (runPasses Two.w3x (Pm.Daemon.TwoRun.Ex.ppV.map (·.1))).devs.map (fun nd => (nd.2.acts.map fun a => (a.clientId, a.arglist), nd.2.toBuf)) = [([(2, 2)], [])] ∧
+    (runPasses Two.w3x (Pm.Daemon.TwoRun.Ex.ppV.map (·.2))).devs.map (fun nd => (nd.2.acts.map fun a => (a.clientId, a.arglist), nd.2.toBuf)) = [([(2, 2)], [])] := by
+  decide +kernel
+
+/- non-vacuity of `C11_stuck_then_vanish`: the two stuck passes of §7, then a pass in which descriptor 1001 reports `POLLERR` in the
+   second run only (`goneAfterStuck`); afterwards client 2 is gone in the second run, clients 1 and 3 are the same -/
+example : Pm.Daemon.TwoRun.StuckRun 1001 Two.w3x Pm.Daemon.TwoRun.Ex.pp1 ∧
+    Pm.Daemon.TwoRun.GoneRun 1001 (runPasses Two.w3x (Pm.Daemon.TwoRun.Ex.pp1.map (·.1))) (runPasses Two.w3x (Pm.Daemon.TwoRun.Ex.pp1.map (·.2)))
+      [(Pm.Daemon.TwoRun.Ex.pZ, Pm.Daemon.TwoRun.Ex.pZ')] :=
+  ⟨Pm.Daemon.TwoRun.stuckRun_of 1001 _ _ Pm.Daemon.TwoRun.Ex.readerRun, Pm.Daemon.TwoRun.Ex.goneAfterStuck⟩
+example :
+    ids (runPasses Two.w3x ((Pm.Daemon.TwoRun.Ex.pp1 ++ [(Pm.Daemon.TwoRun.Ex.pZ, Pm.Daemon.TwoRun.Ex.pZ')]).map (·.1))) = [1, 2, 3] ∧
+    ids (runPasses Two.w3x ((Pm.Daemon.TwoRun.Ex.pp1 ++ [(Pm.Daemon.TwoRun.Ex.pZ, Pm.Daemon.TwoRun.Ex.pZ')]).map (·.2))) = [1, 3] := by
   decide +kernel
 
 end Pm.Props.C11
